@@ -55,7 +55,8 @@ theorem distAlphabet_values (large : Bool) :
 
 /-- **trivial_metablock_roundtrip** — `BrotliStoreMetaBlockTrivial` (quality 3).
 For EVERY ring buffer / mask / start position holding the meta-block bytes `mb` (`1 ≤ |mb| ≤ 2^24`, wrapped or
-not; `hIP`: the two slices `InputPairFromMaskedInput` takes are inside the buffer), every command array
+not; `hIP`: the two slices `InputPairFromMaskedInput` takes are inside the buffer — true for a ring of exactly
+`mask + 1` bytes and `|mb| ≤` its size, `BV.MetaBlock.inputPairCheck_ok`), every command array
 satisfying `cmdOK` and `lockstep`, every history (`hist` = custom-dictionary tail ++ earlier output), distance
 ring `dc`, window, static-dictionary oracle, standard or large-window distance alphabet, `is_last`, and already
 written bits `w`:
